@@ -68,7 +68,7 @@ CHECKS = {
         "rule": "engine histories (profiles content/general/lowlevel/long; memory backend, plus the directory backend in quick and Deflate-over-directory / Brotli-over-SQLite in thorough): after every commit -> Some on a replica that is not behind, a fresh Melda::new on the same storage must show identical objects/winners/conflicts/revision sets/document/heads/blocks; "
                 "reopen ops compare with the last clean state. non-trivial = the history committed >=2 revisions of one object in one commit, or its first commit carried an update record." + DISTINCT,
         "assumptions": ASSUME_COMMON,
-        "jobs": [engine("content", "content", "C03", (1600, 60000)), engine("general", "general", "C03", (800, 30000)), engine("lowlevel", "lowlevel", "C03", (240, 12000)), engine("wide", "wide", "C03", (160, 8000)), engine("long", "long", "C03", (48, 1600)),
+        "jobs": [engine("content", "content", "C03", (1280, 60000)), engine("general", "general", "C03", (640, 30000)), engine("lowlevel", "lowlevel", "C03", (240, 12000)), engine("wide", "wide", "C03", (160, 8000)), engine("long", "long", "C03", (48, 1600)),
                  engine("content-dir", "content", "C03", (96, 4000), args={"backend": "fs"}),
                  engine("bigpacks-deflate", "bigdoc", "any", (32, 800), args={"backend": "mem+flate"}),
                  engine("bigpacks-brotli-dir", "bigdoc", "any", (16, 400), args={"backend": "fs+brotli"}),
@@ -92,7 +92,7 @@ CHECKS = {
                 "system: in every observation of every history, winner/conflicting/in_conflict == the rule applied to the library's own revision sets and to the trees parsed from the raw block files. "
                 "non-trivial (unit) = >=2 live leaves, a marker, an index >=10 or a dangling subtree; (system) = >=2 live leaves seen or an index >= 10." + DISTINCT,
         "assumptions": ASSUME_COMMON,
-        "jobs": [mode("trees", "c05unit", (40000, 1200000)), mode("order", "c19unit", (64, 3200)), engine("conflict", "conflict", "C05", (640, 30000)), engine("long", "long", "C05", (64, 3200)), engine("verylong", "verylong", "C05", (16, 320))],
+        "jobs": [mode("trees", "c05unit", (32000, 1200000)), mode("order", "c19unit", (64, 3200)), engine("conflict", "conflict", "C05", (640, 30000)), engine("long", "long", "C05", (64, 3200)), engine("verylong", "verylong", "C05", (12, 320))],
     },
     "C06": {
         "level": "exploration", "floor": 50,
@@ -108,7 +108,7 @@ CHECKS = {
                 "a chosen deletion makes the object deleted and absent from the document; choosing the winner leaves the document unchanged; for arrays the chosen leaf's surviving elements keep their order. Each fork commits and a fresh replica that melds it must show the same state; "
                 "two forks that chose different leaves exchange and must converge. In-history resolutions add the same checks. non-trivial = a leaf set of >=3, a deleted leaf chosen, or an array descriptor resolved." + DISTINCT,
         "assumptions": ASSUME_COMMON + ["the merged order produced by resolving an array is not modelled; only the clauses the property states are asserted"],
-        "jobs": [mode("forks", "c07", (960, 24000), args={"profile": "conflict"}), mode("forks-lowlevel", "c07", (160, 8000), args={"profile": "lowlevel"}), mode("forks-kind", "c07", (480, 16000), args={"profile": "kind"}), engine("inline", "conflict", "C07", (800, 24000))],
+        "jobs": [mode("forks", "c07", (800, 24000), args={"profile": "conflict"}), mode("forks-lowlevel", "c07", (160, 8000), args={"profile": "lowlevel"}), mode("forks-kind", "c07", (320, 16000), args={"profile": "kind"}), engine("inline", "conflict", "C07", (800, 24000))],
     },
     "C08": {
         "level": "exploration", "floor": 20,
@@ -189,7 +189,7 @@ CHECKS = {
                 "compared with a first-write-wins map; persistent backends are dropped and reopened mid-sequence and at the end. replica: the same op script (engine 'general') runs over all 12 backends; the per-op state/graph digest sequence must equal the memory baseline, including reopen on a new adapter object. "
                 "non-trivial = >=5 keys (contract) / script with >=2 commits compared on all backends." + DISTINCT,
         "assumptions": ASSUME_COMMON + ["keys are item-like names: ASCII, >= 2 characters, no '/', not containing '.flate'/'.brotli'"],
-        "jobs": [mode("contract", "c17contract", (288, 3200), args={"ops": 240})] +
+        "jobs": [mode("contract", "c17contract", (240, 3200), args={"ops": 240})] +
                 [engine("replica-" + b.replace("+", "-"), "general", "any", (32, 1200), args={"backend": b, "fulldigests": 1, "steps": 30}, shards=2, env={"RAYON_NUM_THREADS": "2"}, env_by_shard=None) for b in BACKENDS] +
                 [{"name": "memcheck-sqlite", "external": "memcheck", "tier": "thorough"}],
     },
